@@ -713,6 +713,11 @@ def gen_tmpf(rng, count):
     for tl in (0, 6, 40, 243, 244, 245, 250, 300):
         add('N', 0, tpl_of(tl).replace(b'X', b'x'), 600, 600, rng.choice([0, 0o22, 0o777]), [], 0, '')
     add('D', 150, b'lvtmp-', 0, 64, 0o22, [pick()], 0, '')      # len = 0: refused
+    # templates made of the characters the work directory's own name is spelled with (a glue false alarm of the thorough tier, DESIGN appendix)
+    for t in (b'd', b'dd', b'.', b'..', b'v', b'verif'):
+        add('D', 150, t, 2, 128, 0o277, [pick(), pick()], 0, 'F')
+        add('K', 200, t, 3, 133, 0o677, [pick()], 0, '')
+        add('M', 200, t, 3, 3, 0o477, [pick()], 0, '')
     return cases
 
 
